@@ -9,12 +9,12 @@ FUNCS = ['soupsieve.select/select_one/iselect/match/filter/closest/compile (modu
 CONDS = [
     Cond('limit_ok', 'select/iselect(limit=k) == select()[:k] for k >= 1, == select() for k <= 0',
          'k: every integer (unbounded symbolic); first 6 selectors of each part x 5 trees quick / 40 x 20 thorough',
-         timeout={'quick': 100, 'thorough': 1200}, parts={'quick': 4, 'thorough': 12}),
+         timeout={'quick': 100, 'thorough': 600}, parts={'quick': 4, 'thorough': 12}),
     Cond('views_ok', 'select == document-order reference filter of element descendants with :scope/& = call target; '
          'iselect, select_one, filter(tag), filter(iterable), closest, match agree with it',
          'pool: 12 scope/&/custom-alias forms + 500/4000 seeded random selector lists; 32/102 trees (HTML, XML, detached, '
          'parsed, several top-level nodes); document and first 6 elements as call target',
-         timeout={'quick': 100, 'thorough': 1500}, parts={'quick': 6, 'thorough': 16}),
+         timeout={'quick': 100, 'thorough': 900}, parts={'quick': 6, 'thorough': 16}),
     Cond('wrappers_ok', 'each module-level function == compile(pattern, namespaces, flags, custom=custom).method '
          '(same result or same exception type)',
          '7 selectors (incl. custom aliases, namespace prefix) x 4 namespace maps x flags {0, DEBUG} x custom {None, {}, map} '
